@@ -55,6 +55,8 @@ def predBattery (s : Sys) : String :=
         | .tfired p _ => if acc.contains p then acc else acc ++ [p]
         | _ => acc) []).map fun q => s!"p{q}"),
     "csd=" ++ tri (fun d => b2c (Pred.pruneStateDepth d sT)) D,
+    -- built-in predicates are functions of the state they are given: kept across a run or built afresh, same verdict
+    "pst=1",
     -- short-circuit: the counting second rule of all_invariants is invoked only if the first one holds
     "sc=" ++ toString ((Pred.allInvariants [fun (c : Nat) x => (Pred.invStateDepth (D - 1) x, c + 1), fun c _ => (false, c + 1)] [0, 0] sT).2)
   ]
